@@ -301,7 +301,12 @@ def make_placed(case, notes):
             node = node.parent
         lk = odml.Section(name="c07-linking", type=target.type, parent=cont)
         if error == "linked_type_cleared":
-            lk.link = target.get_path()
+            try:
+                lk.link = target.get_path()
+            except ValueError:
+                # the library refuses this path as a link (a name the path syntax cannot express):
+                # the scenario cannot be built, which is no statement about saving
+                raise _Unplaceable()
         else:
             lk.merge(target.clone())
         lk.type = None
